@@ -37,6 +37,8 @@ static void loadConfig(const json::Object &o) {
   if (auto v = o.getInteger("longLoop")) CFG.longLoop = (int)*v;
   if (auto v = o.getInteger("fmtForkMax")) CFG.fmtForkMax = *v;
   if (auto v = o.getString("reportRegion")) CFG.reportRegion = v->str();
+  if (auto v = o.getInteger("reportLimit")) CFG.reportLimit = *v;
+  if (auto v = o.getString("wsetResetAfter")) CFG.wsetResetAfter = v->str();
   if (auto a = o.getArray("fields"))
     for (auto &f : *a) { auto &fo = *f.getAsObject(); FieldSpec fs; fs.name = fo.getString("name")->str(); fs.lo = *fo.getInteger("lo"); fs.hi = *fo.getInteger("hi"); fs.writable = *fo.getBoolean("writable"); CFG.fields.push_back(fs); }
   if (auto c = o.getObject("contracts"))
@@ -91,6 +93,7 @@ static bool setupCell(const json::Object &cell, State &S, std::string &err) {
       int id = newRegion(S, name, kind == "cstr" ? RK_CSTR : RK_INPUT, 0, 0);
       Region &R = S.regions[id];
       rid[name] = id;
+      if (name == CFG.reportRegion && CFG.reportLimit > 0) R.w().wlimit = CFG.reportLimit;
       uint8_t prov = provByName(ro.getString("prov").getValueOr("other").str());
       RegionData &D = R.w();
       std::string head;
@@ -168,7 +171,8 @@ static std::string pathRecord(State &S, std::map<std::string, int> &setTable, st
   o += "]";
   if (!CFG.reportRegion.empty())
     for (auto &R : S.regions) if (R.name == CFG.reportRegion) {
-      o += ",\"nul\":[" + std::to_string(R.rd().nulLo) + "," + std::to_string(R.rd().nulHi) + "]";
+      { int64_t ml = -1; int64_t mh = R.rd().nulAfter(0, &ml); o += ",\"nul\":[" + std::to_string(ml) + "," + std::to_string(mh) + "]"; }
+      o += ",\"wset\":\"" + setHex(R.rd().wset) + "\"";
       o += ",\"out\":[";
       const RegionData &D = R.rd();
       size_t n = std::min(D.bytes.size(), (size_t)400);
